@@ -12,7 +12,7 @@ LEVEL = "model_checking"
 
 HEADER = ("package main\n\nimport frt\nimport slice\nimport dict\nimport buf\n\npackage_info _ =\n  let extEmpty<T>: ()->[]T\n\n"
           "type Doc = {Body: Buffer; Keys: []Dict}\nand Buffer = {N: int}\nand Dict = {M: int}\n\n"
-          "type Box<T> = {V: T}\n\ntype Res<T> =\n| Succ of T\n| Fail\n\nlet ident x =\n  x\n\n")
+          "type Box<T> = {V: T}\n\ntype Duo<A, B> = {P: A; Q: B}\n\ntype Res<T> =\n| Succ of T\n| Fail\n\nlet ident x =\n  x\n\n")
 
 
 def txt(toks):
@@ -156,7 +156,7 @@ def depth(t):
 
 def run(ctx):
     ctx.rule = ("type terms enumerated by TLC: every term of depth <= 1 over int/string/bool/any/float and buf.Buffer (slices, 2-tuples, "
-                "function types with 1-2 arguments incl. unit argument/result, Box<T>, dict.Dict<K,V>; 3-tuples over 3 bases), depth 2 over "
+                "function types with 1-2 arguments incl. unit argument/result, Box<T>, Duo<A,B>, dict.Dict<K,V>; 3-tuples over 3 bases), depth 2 over "
                 "int/string with one deep component per constructor (thorough: every depth <= 1 term in every position, 86 k terms), and 5 hand-picked depth 3 terms; each printed with minimal and with "
                 "redundant parentheses, in each applicable position (parameter annotation, record field, union payload, explicit type "
                 "argument of slice.New / of a generic union case / of a package_info function / of a generic function of the file, "
